@@ -30,7 +30,7 @@ func runC15(c *vf.Ctx) {
 	if !c.Active(sub) {
 		return
 	}
-	n := c.N(300, 5000)
+	n := c.N(300, 25000)
 	ids := allIdents()
 	for i := 0; i < n; i++ {
 		if !c.Mine(sub, i) || c15Hangs.Load() >= 3 {
